@@ -37,7 +37,7 @@ COMMENT_EXCL = '"#\\'
 def doc(ctx, opts):
     """-> (text, expected) ; opts selects the layout family and where the symbolic characters go"""
     o = dict(nsym=2, form='bare', ws=' ', nl='\n', arr='[]', comment=None, cont=None, case=None, interleave=0, blank_lines=False,
-             charlen='8', sub_names=False, value_sym=0, names=None, typedef_case=False)
+             charlen='8', sub_names=False, value_sym=0, names=None, typedef_case=False, enumlayout=None)
     o.update(opts)
 
     def choice(name, options):
@@ -88,7 +88,12 @@ def doc(ctx, opts):
     head = ['#%yanny', '# a comment line', S('name', ws, 'value', V, tc), 'mjd 54579', '']
     if o['blank_lines']:
         head += ['', ' \t ', '   # indented comment']
-    enum = ['typedef enum {', '    ALPHA,', '    BETA', '} ETYPE;', '']
+    # the last label is the longest one (it sizes the column); the typedef layout is a choice of the solver
+    enum = choice('enumlayout', [['typedef enum {', '    ALPHA,', '    BETA,', '    EPSILON', '} ETYPE;', ''],
+                                 ['typedef enum { ALPHA, BETA, EPSILON } ETYPE;', ''],
+                                 ['typedef enum {', '    ALPHA, BETA,', '    EPSILON } ETYPE;', ''],
+                                 ['typedef enum {ALPHA,BETA,EPSILON} ETYPE;', '']]) if o['enumlayout'] == 'sym' else \
+        ['typedef enum {', '    ALPHA,', '    BETA,', '    EPSILON', '} ETYPE;', '']
     st1 = ['typedef struct {', ' int id;', ' char label%s%s%s;' % (lb, o['charlen'], rb), ' ETYPE e;', ' char tags%s2%s%s4%s;' % (lb, rb, lb, rb),
            ' float x%s2%s;' % (lb, rb), S('} ', tdef, ';'), '']
     st2 = ['typedef struct {', ' short n;', ' char w%s%s;' % (lb, rb), '} %s;' % oname, '']
@@ -99,7 +104,7 @@ def doc(ctx, opts):
             ctx.add(z3.Or(t == 32, t == 9))
         cont = S('\\', k, nl)
     r1 = S(trow, ws, '1', ws, l1_text, ws, cont, 'ALPHA', ws, '{ab', ws, 'x}', ws, '{1.5 2.5}', tc)
-    r2 = S(tname.lower(), ' 2 "q r" BETA {"" yy} {3.0 4.0}')
+    r2 = S(tname.lower(), ' 2 "q r" EPSILON {"" yy} {3.0 4.0}')
     s1 = S(oname, ' 5 ', 'w1')
     s2 = S(oname.lower(), ' 6 longer')
     rows = [[r1, r2, s1, s2], [s1, r1, s2, r2], [r1, s1, r2, s2]][o['interleave']]
@@ -110,7 +115,7 @@ def doc(ctx, opts):
         text = piece if text is None else text + piece
     expected = {
         'pairs': {'name': S('value', V), 'mjd': '54579'},
-        tname.upper(): {'id': [1, 2], 'label': [S(L1), 'q r'], 'e': ['ALPHA', 'BETA'], 'tags': [['ab', 'x'], ['', 'yy']], 'x': [[1.5, 2.5], [3.0, 4.0]]},
+        tname.upper(): {'id': [1, 2], 'label': [S(L1), 'q r'], 'e': ['ALPHA', 'EPSILON'], 'tags': [['ab', 'x'], ['', 'yy']], 'x': [[1.5, 2.5], [3.0, 4.0]]},
         oname.upper(): {'n': [5, 6], 'w': ['w1', 'longer']},
         'order': [tname.upper(), oname.upper()],
     }
@@ -138,7 +143,7 @@ def check(ctx, par, expected, raw, d):
                 ctx.require(cell_eq(got[i], expected[t][c][i]), 'cell value', dict(d, table=t, col=c, row=i))
         if not raw:
             dt = par[t].dtype
-            exp_kinds = {'id': 'i4', 'e': 'S5', 'x': 'f4', 'n': 'i2'}
+            exp_kinds = {'id': 'i4', 'e': 'S7', 'x': 'f4', 'n': 'i2'}
             for c in cols:
                 if c in exp_kinds:
                     ctx.require(np.dtype(dt.fields[c][0].base) == np.dtype(exp_kinds[c]), 'column type', dict(d, table=t, col=c))
@@ -183,11 +188,12 @@ def obligations(tier, seed):
         ('name-is-a-column-elsewhere', dict(form='bare', nsym=1, names=('TAB', 'LABEL'))),
         ('name-is-a-column-elsewhere2', dict(form='quoted', nsym=1, names=('N', 'OTHER'))),
         ('typedef-case', dict(form='bare', nsym=1, typedef_case=True)),
+        ('enum-layout', dict(form='bare', nsym=1, enumlayout='sym', nl='sym')),
     ]
     obs = []
     for name, opts in fam:
         obs.append(ob_layout(name, opts, raw=True))
-        if name in ('bare', 'quoted', 'legacy-angle', 'char[]', 'interleave1', 'crlf', 'substring-names3', 'name-is-a-column-elsewhere', 'typedef-case') or not q:
+        if name in ('bare', 'quoted', 'legacy-angle', 'char[]', 'interleave1', 'crlf', 'substring-names3', 'name-is-a-column-elsewhere', 'typedef-case', 'enum-layout') or not q:
             obs.append(ob_layout(name, opts, raw=False))
     obs.append(ob_layout('quoted', dict(form='quoted', nsym=1), raw=False, binary=True))
     if not q:
